@@ -370,8 +370,39 @@ def project(snap, U: Universe):
 
 
 # --------------------------------------------------------------------------- the real recovery check
-def recover(snap, pre_refs, post_refs, pre_objs):
-    """Returns None if the repository at `snap` is consistent, else a short clause string."""
+def retry_after_crash(snap, op, dst, unlock=False):
+    """The user's next step after a crash: the same operation again, on a copy of the crash state.
+    It may fail (a stale lock file is a legitimate reason); whatever it does, it runs un-interposed.
+    Returns (outcome string, path of the copy)."""
+    from dulwich.repo import Repo
+    shutil.copytree(snap, dst, symlinks=True)
+    if unlock:
+        # what git tells the user to do after a crash: remove the stale lock files
+        for dp, dn, fn in os.walk(dst):
+            for f in fn:
+                if f.endswith(".lock"):
+                    os.unlink(os.path.join(dp, f))
+    try:
+        r = Repo(dst)
+    except Exception as e:
+        return f"open:{type(e).__name__}", dst
+    try:
+        try:
+            op(r)
+            return "ok", dst
+        except Exception as e:
+            return f"raised:{type(e).__name__}", dst
+    finally:
+        try:
+            r.close()
+        except Exception:
+            pass
+
+
+def recover(snap, pre_refs, post_refs, pre_objs, any_ref_value=False):
+    """Returns None if the repository at `snap` is consistent, else a short clause string.
+    any_ref_value: refs may hold values other than the old/new ones of the first attempt (used after a
+    retried operation, which may legitimately build on the half-finished first attempt)."""
     from dulwich.objects import Commit, Tag, Tree
     from dulwich.repo import Repo
     try:
@@ -386,7 +417,7 @@ def recover(snap, pre_refs, post_refs, pre_objs):
         names = set(pre_refs) | set(post_refs) | set(refs)
         for n in sorted(names):
             v = refs.get(n)
-            if v not in (pre_refs.get(n), post_refs.get(n)):
+            if not any_ref_value and v not in (pre_refs.get(n), post_refs.get(n)):
                 return f"RefNeitherOldNorNew:{n.decode()}"
         store = r.object_store
 
@@ -590,6 +621,8 @@ def run(ctx):
     real_verdicts = {}
     tid = 0
     nsnap = 0
+    nretry = 0
+    retry_outcomes = {}
     for (name, layout, fsync) in plan:
         rec = Recording(ctx, name, S[name], layout, fsync)
         pre_refs, pre_objs = repo_facts(rec.work)
@@ -638,6 +671,37 @@ def run(ctx):
                     ctx.violation(f"{site}|{clause}|{scen} mode={mode} at={re.sub(r'[0-9a-f]{38,40}', '<sha>', d)}",
                                   f"crash ({mode}) after call {k} [{d}] of {name} ({scen}) leaves an inconsistent repository: {verdict}",
                                   {"scenario": name, "layout": layout, "fsync": fsync, "k": k, "mode": mode, "event": d, "verdict": verdict})
+                elif mode == "process":
+                    # crash, restart, repeat the operation -- with the stale lock files left in place, and after the
+                    # user removed them: whether it succeeds or refuses, the repository stays consistent
+                    for unlock in ((False, True) if not ctx.quick else ((k + tid) % 2 == 1,)):
+                        outcome, rp = retry_after_crash(p, S[name], os.path.join(rec.root, f"r{k}"), unlock=unlock)
+                        v2 = recover(rp, pre_refs, post_refs, pre_objs, any_ref_value=True)
+                        # the continued state is also judged by Crash.tla (mode "retry": RecoveryInv without the
+                        # old-or-new clause); objects the retry created are learnt first
+                        try:
+                            U.learn(rp)
+                            st2 = project(rp, U)
+                            st2["k"], st2["mode"] = k, "retry"
+                            for pk in st2["packs"]:
+                                pk.pop("name", None)
+                            states.append(st2)
+                            real_verdicts[(tid, len(states))] = (v2, d + f" +retry({'locks removed' if unlock else 'as is'})", "retry")
+                        except Exception:
+                            ctx.cov["retry_states_not_projected"] = ctx.cov.get("retry_states_not_projected", 0) + 1
+                        shutil.rmtree(rp, ignore_errors=True)
+                        nretry += 1
+                        how = "locks-removed" if unlock else "as-is"
+                        retry_outcomes[f"{how}:{outcome}"] = retry_outcomes.get(f"{how}:{outcome}", 0) + 1
+                        ctx.count()
+                        ctx.nontrivial((name, layout, fsync, k, "retry", how, outcome))
+                        if v2 is not None:
+                            clause = v2.split(":")[0]
+                            ctx.violation(f"{site}|{clause}|{scen} mode=crash+retry({how},{outcome.split(':')[0]}) at={re.sub(r'[0-9a-f]{38,40}', '<sha>', d)}",
+                                          f"crash after call {k} [{d}] of {name} ({scen}), then the same operation again ({how}: {outcome}): "
+                                          f"the repository is inconsistent: {v2}",
+                                          {"scenario": name, "layout": layout, "fsync": fsync, "k": k, "mode": "retry", "unlock": unlock, "event": d,
+                                           "verdict": v2, "retry_outcome": outcome})
         n = len(U.oid)
         deps = [sorted(U.deps.get(i, ())) for i in range(1, n + 1)]
         pre = [U.oid.get(pre_refs.get(nm.encode(), b"").decode(), 0) for nm in U.refs]
@@ -702,9 +766,12 @@ def run(ctx):
                 # clause with a recoverable state is reported as drift (order differs from the spec)
                 ctx.drift_event(f"{meta[t['tid']]} state {i} [{desc}]: abstract verdict {a} vs real recovery {rv}")
     ctx.cov["abstract_states_flagged"] = abstract_bad
+    ctx.cov["crash_then_retry"] = {"executions": nretry, "outcomes": retry_outcomes}
+    ctx.log(f"crash + retry: {nretry} executions, outcomes {retry_outcomes}")
     ctx.cov["rule"] = ("one crash state per mutating file-system call of each (operation, starting layout, fsync setting), plus power-loss "
                        "variants when fsync is on, plus one unwound directory per (call, exception kind); each materialised and "
-                       "checked by the real recovery procedure; distinct = distinct (scenario, layout, fsync, call index, mode)")
+                       "checked by the real recovery procedure; process-crash states are additionally continued by repeating the operation "
+                       "(crash, restart, retry) and checked again; distinct = distinct (scenario, layout, fsync, call index, mode)")
     ctx.assumptions += ["process-crash model: the directory as the kernel has it between two calls (user-space buffers lost)",
                         "power-loss model: a file written during the operation keeps only the bytes present at its last fsync; "
                         "directory entries (renames, unlinks) are assumed durable in order; evaluated only with core.fsyncObjectFiles=true",
@@ -737,6 +804,11 @@ def replay(ctx, path):
     if obj["mode"] == "power":
         pv = rec.power_variant(p, inomap, k)
         p = pv[0] if pv else p
+    if obj["mode"] == "retry":
+        outcome, rp = retry_after_crash(p, S[name], os.path.join(rec.root, "replay-retry"), unlock=obj.get("unlock", False))
+        v = recover(rp, pre_refs, post_refs, pre_objs, any_ref_value=True)
+        print(f"re-executed: crash after call {k} [{desc}], operation repeated ({outcome}), verdict:", v)
+        return 1 if v else 0
     v = recover(p, pre_refs, post_refs, pre_objs)
     print(f"re-executed: crash after call {k} [{desc}] verdict:", v)
     return 1 if v else 0
